@@ -935,6 +935,13 @@ def r168(prog, chk):
             tested = []
             if isinstance(node, (ast.If, ast.IfExp, ast.While)):
                 tested.append(node.test)
+            elif isinstance(node, ast.Call) and isinstance(node.func, ast.Name) and node.func.id in ("all", "any") and len(node.args) == 1:
+                # all(f(x) for x in ...) / any([a, b]) test every element by truthiness
+                a0 = node.args[0]
+                if isinstance(a0, (ast.GeneratorExp, ast.ListComp, ast.SetComp)):
+                    tested.append(a0.elt)
+                elif isinstance(a0, (ast.List, ast.Tuple, ast.Set)):
+                    tested += list(a0.elts)
             elif isinstance(node, ast.BoolOp):
                 tested += node.values[:-1] if isinstance(node.op, ast.Or) else node.values
             elif isinstance(node, ast.UnaryOp) and isinstance(node.op, ast.Not):
@@ -1269,6 +1276,8 @@ def r1613(prog, chk):
 
 
 MUTANTS = [
+    M("vertical tables only built when all three vhea metrics are non-zero (seeded C16m)", "ufo2ft/outlineCompiler.py", "BaseOutlineCompiler.compile",
+      "getAttrWithFallback(self.ufo.info, metric) is not None", "getAttrWithFallback(self.ufo.info, metric)", rule="R16.8"),
     M("slant helper called with its arguments swapped (mutation scan 4, k=143)", "ufo2ft/outlineCompiler.py", "BaseOutlineCompiler.setupTable_OS2",
       "adjustOffset(os2.ySuperscriptYOffset, italicAngle)", "adjustOffset(italicAngle, os2.ySuperscriptYOffset)", rule="R16.13"),
     M("blue zones sorted in place inside a helper of the BlueScale fallback (seeded C07j)", "ufo2ft/fontInfoData.py", "postscriptBlueScaleFallback",
